@@ -289,7 +289,7 @@ func (w *World) pushCall(t *Thread, fv FuncV, args []Val, ret *ssa.Call) *Frame 
 	}
 	if len(t.frames) > w.eng.maxDepth {
 		// unbounded recursion is a crash in Go (fatal stack overflow)
-		w.violate("engine.recursion-bound", fmt.Sprintf("call depth > %d in %s", w.eng.maxDepth, fn.String()), nil)
+		w.violate(w.harnessProp()+".no-unbounded", fmt.Sprintf("unbounded recursion: call depth > %d in %s", w.eng.maxDepth, fn.String()), nil)
 		w.crashed = "stack overflow (recursion bound) in " + fn.String()
 		w.truncate("recursion")
 		w.truncated = false
@@ -436,7 +436,7 @@ func (w *World) run() {
 			if w.steps > w.stepBudget {
 				w.truncate("step-budget")
 				w.inconclusive = "step budget exhausted (possible unbounded loop)"
-				w.violate("engine.step-budget", "more than "+fmt.Sprint(w.stepBudget)+" SSA steps on one path: unbounded loop?", nil)
+				w.violate(w.harnessProp()+".no-unbounded", "more than "+fmt.Sprint(w.stepBudget)+" SSA steps on one path: unbounded loop?", nil)
 			}
 		}
 		lbl := t.yieldAt
@@ -549,7 +549,7 @@ func (w *World) reportStuck() {
 		}
 	}
 	sort.Strings(parts)
-	w.violate("engine.deadlock", "no thread enabled, no timer pending: "+strings.Join(parts, "; "), nil)
+	w.violate(w.harnessProp()+".no-deadlock", "no thread enabled, no timer pending: "+strings.Join(parts, "; "), nil)
 }
 
 func (t *Thread) topFn() string {
@@ -583,6 +583,7 @@ func (w *World) mutexCycle() string {
 
 func (t *Thread) siteShort() string {
 	var fns []string
+	seen := map[string]int{}
 	for _, f := range t.frames {
 		n := f.fn.Name()
 		if f.fn.Parent() != nil {
@@ -591,11 +592,26 @@ func (t *Thread) siteShort() string {
 		if strings.HasPrefix(n, "vp") {
 			continue
 		}
-		if len(fns) == 0 || fns[len(fns)-1] != n {
-			fns = append(fns, n)
+		if f.fn.Signature.Recv() != nil && strings.Contains(f.fn.Signature.Recv().Type().String(), ".vp") {
+			continue // methods of harness stub types
+		}
+		if len(fns) > 0 && fns[len(fns)-1] == n {
+			continue
+		}
+		seen[n]++
+		if seen[n] > 2 {
+			continue // recursion: keep the first two occurrences only
+		}
+		fns = append(fns, n)
+	}
+	s := strings.Join(fns, ">")
+	for n, c := range seen {
+		if c > 2 {
+			s += fmt.Sprintf(" (%s x%d)", n, c)
+			break
 		}
 	}
-	return strings.Join(fns, ">")
+	return s
 }
 
 // poll: lazily deliver ticks that are due at the current instant (symbolic test = branch)
@@ -694,6 +710,14 @@ func (w *World) site() string {
 }
 
 func (w *World) violate(id, detail string, model map[string]string) {
+	if model == nil && len(w.inputs) > 0 && !w.s.dead {
+		func() {
+			defer func() { recover() }()
+			unk := w.s.unknown
+			_, model = w.s.model("", w.inputs)
+			w.s.unknown = unk
+		}()
+	}
 	v := Violation{ID: id, Site: w.site(), Detail: detail, Model: model}
 	if s, ok := w.now.(Sym); ok {
 		v.Now = s.t
@@ -719,7 +743,7 @@ func (w *World) goPanic(t *Thread, val Val, desc string) {
 
 func (w *World) crash(t *Thread) {
 	w.crashed = t.panicDesc
-	w.violate("engine.panic", "unrecovered Go panic: "+t.panicDesc, nil)
+	w.violate(w.harnessProp()+".no-panic", "unrecovered Go panic: "+t.panicDesc, nil)
 	for _, o := range w.threads {
 		o.done = true
 	}
